@@ -7,9 +7,12 @@ import (
 	"fmt"
 	"io"
 	"reflect"
+	"regexp"
 	"runtime"
+	"sort"
 	"strconv"
 	"strings"
+	"time"
 
 	"github.com/CloudyKit/jet/v6"
 )
@@ -282,13 +285,16 @@ func collValue(e xExpr) interface{} {
 			out = append(out, v)
 		}
 		return out
+	case "ptrslice":
+		x := append([]string{}, e.Vs...)
+		return &x
 	case "array":
 		a := reflect.New(reflect.ArrayOf(len(e.Vs), reflect.TypeOf(""))).Elem()
 		for i, v := range e.Vs {
 			a.Index(i).SetString(v)
 		}
 		return a.Interface()
-	case "map":
+	case "map", "map1":
 		m := map[string]string{}
 		for _, v := range e.Vs {
 			m["k"+v] = v
@@ -322,7 +328,67 @@ func bracketEscaper(w io.Writer, b []byte) {
 	w.Write([]byte("»"))
 }
 
+type refStruct struct {
+	A int
+	B string
+}
+
+var refPtrTarget = 7
+
+func refValue(v string) (interface{}, bool) {
+	switch v {
+	case "ref:zerofloat":
+		return 0.0, true
+	case "ref:float":
+		return 0.5, true
+	case "ref:nilptr":
+		return (*int)(nil), true
+	case "ref:ptr":
+		return &refPtrTarget, true
+	case "ref:nilmap":
+		return map[string]int(nil), true
+	case "ref:emptymap":
+		return map[string]int{}, true
+	case "ref:map":
+		return map[string]int{"a": 1}, true
+	case "ref:nilslice":
+		return []int(nil), true
+	case "ref:emptyslice":
+		return []int{}, true
+	case "ref:slice":
+		return []int{0}, true
+	case "ref:zerostruct":
+		return refStruct{}, true
+	case "ref:struct":
+		return refStruct{A: 1}, true
+	case "ref:zeroarray":
+		return [2]int{}, true
+	case "ref:array":
+		return [2]int{0, 1}, true
+	case "ref:func":
+		return func() int { return 0 }, true
+	case "ref:niliface":
+		var e error
+		return &e, false // placeholder, handled by caller
+	case "ref:ifacezero":
+		return []interface{}{0}[0:1], true
+	case "ref:chan":
+		return make(chan int), true
+	case "ref:zerotime":
+		return time.Time{}, true
+	}
+	return nil, false
+}
+
 func atomValue(v string) interface{} {
+	if strings.HasPrefix(v, "ref:") {
+		if v == "ref:niliface" {
+			return (error)(nil)
+		}
+		if x, ok := refValue(v); ok {
+			return x
+		}
+	}
 	switch v {
 	case "true":
 		return true
@@ -345,11 +411,24 @@ type xObs struct {
 	Panic string `json:"panic,omitempty"`
 }
 
+var tokenRe = regexp.MustCompile(`«[^»]*»|\[[^\]]*\]`)
+
+// sortedTokens: the chunks of an output as a sorted multiset (map iteration order is not observable)
+func sortedTokens(s string) string {
+	t := tokenRe.FindAllString(s, -1)
+	if strings.Join(t, "") != s {
+		return "UNTOKENISABLE:" + s
+	}
+	sort.Strings(t)
+	return strings.Join(t, "")
+}
+
 type xWorld struct {
-	set   *jet.Set
-	where map[string][2]string
-	colls []xExpr
-	src   map[string]string
+	multiset bool
+	set      *jet.Set
+	where    map[string][2]string
+	colls    []xExpr
+	src      map[string]string
 }
 
 func xBuild(c *xCase, esc jet.SafeWriter, useEsc bool) (*xWorld, error) {
@@ -477,6 +556,9 @@ func xCompare(w *xWorld, exp xResult, o xObs, esc func(string) string) (bool, st
 		return false, "load", o.Err
 	}
 	want := renderChunks(exp.Out, esc)
+	if w.multiset && sortedTokens(o.Out) == sortedTokens(want) {
+		want = o.Out
+	}
 	if o.Out != want {
 		return false, "output", fmt.Sprintf("output %q, spec %q", o.Out, want)
 	}
@@ -504,6 +586,7 @@ func xReplayWith(tag string) func(i int, raw json.RawMessage) Result {
 			return Result{Detail: "harness: " + err.Error()}
 		}
 		key := string(raw)
+		w.multiset = strings.HasPrefix(v.Tag, "mapset|")
 		esc := func(s string) string { return "«" + s + "»" }
 		for k, r := range v.Case.Runs {
 			if k >= len(v.Results) {
